@@ -157,50 +157,51 @@ func LoadEngine(pkgPatterns []string) (*Engine, error) {
 // ---- harness run configuration ----
 
 type HarnessRun struct {
-	Name           string         `json:"name"`
-	Pkg            string         `json:"pkg"`
-	Func           string         `json:"func"`
-	Params         map[string]int `json:"params"`
-	Arith          bool           `json:"arith"`
-	ConcretizeCap  int            `json:"concretize_cap"`
-	StepBudget     int            `json:"step_budget"`
-	MaxPaths       int            `json:"max_paths"`
-	TimeoutS       int            `json:"timeout_s"`
-	Solver         string         `json:"solver"`
-	Portfolio      []string       `json:"portfolio"`
-	QueryTimeoutMs int            `json:"query_timeout_ms"`
-	IncTimeoutMs   int            `json:"inc_timeout_ms"`
-	Workers        int            `json:"workers"`
-	Reach          []string       `json:"reach"`
+	Name           string            `json:"name"`
+	Pkg            string            `json:"pkg"`
+	Func           string            `json:"func"`
+	Params         map[string]int    `json:"params"`
+	Arith          bool              `json:"arith"`
+	ConcretizeCap  int               `json:"concretize_cap"`
+	StepBudget     int               `json:"step_budget"`
+	MaxPaths       int               `json:"max_paths"`
+	TimeoutS       int               `json:"timeout_s"`
+	Solver         string            `json:"solver"`
+	Portfolio      []string          `json:"portfolio"`
+	QueryTimeoutMs int               `json:"query_timeout_ms"`
+	IncTimeoutMs   int               `json:"inc_timeout_ms"`
+	Workers        int               `json:"workers"`
+	Reach          []string          `json:"reach"`
+	Summaries      map[string]string `json:"summaries"`
 }
 
 type Stats struct {
-	Paths         int
-	PathEnds      map[string]int
-	Forks         int
-	FeasQueries   int
-	UnknownFeas   int
-	FactPruned    int
-	FreshQueries  int
-	OpaqueInts    int
+	Paths          int
+	PathEnds       map[string]int
+	Forks          int
+	FeasQueries    int
+	UnknownFeas    int
+	FactPruned     int
+	FreshQueries   int
+	OpaqueInts     int
 	SampledClasses int
-	AssertConst   int
-	AssertUnsat   int
-	Obligations   int
-	DecideQueries int
-	DecideSat     int
-	DecideUnsat   int
-	DecideUnknown int
-	Asserts       map[string]int
-	Reached       map[string]int
-	Choices       map[string]int
-	NotEst        map[string]int
-	Steps         int64
-	SolverTime    time.Duration
-	SolverQueries int
-	MaxDepth      int
-	Samples       []map[string]interface{}
-	KnownHits     map[string]int
+	AssertConst    int
+	AssertUnsat    int
+	Obligations    int
+	DecideQueries  int
+	DecideSat      int
+	DecideUnsat    int
+	DecideUnknown  int
+	Asserts        map[string]int
+	Reached        map[string]int
+	Choices        map[string]int
+	NotEst         map[string]int
+	Steps          int64
+	SolverTime     time.Duration
+	SolverQueries  int
+	MaxDepth       int
+	Samples        []map[string]interface{}
+	KnownHits      map[string]int
 }
 
 func newStats() *Stats {
